@@ -232,7 +232,16 @@ fn cmd_fmt() {
         if format!("{b:02X}").as_bytes() != [hd(b / 16), hd(b % 16)] { bad += 1; }
         if format!("\\{b:03o}").as_bytes() != [b'\\', b'0' + b / 64, b'0' + (b / 8) % 8, b'0' + b % 8] { bad += 1; }
     }
-    println!("{{\"cmd\":\"fmt\",\"evaluated\":768,\"disagreements\":{}}}", bad);
+    // unit lexer, stub hex_pair / axiom_hex2u: u8::from_str_radix(&format!("{}{}", h1 as char, h2 as char), 16) for two hex digits
+    let hv = |c: u8| -> Option<u8> { match c { b'0'..=b'9' => Some(c - b'0'), b'A'..=b'F' => Some(c - b'A' + 10), b'a'..=b'f' => Some(c - b'a' + 10), _ => None } };
+    let mut pairs = 0u32;
+    for h1 in 0u16..=255 { for h2 in 0u16..=255 { let (h1, h2) = (h1 as u8, h2 as u8);
+        if let (Some(a), Some(b)) = (hv(h1), hv(h2)) {
+            pairs += 1;
+            if u8::from_str_radix(&format!("{}{}", h1 as char, h2 as char), 16) != Ok(a * 16 + b) { bad += 1; }
+        }
+    } }
+    println!("{{\"cmd\":\"fmt\",\"evaluated\":{},\"disagreements\":{}}}", 768 + pairs, bad);
 }
 
 // C29 Eb: every operation history up to `len` over keys 0..3 and capacities 0..=4, LruCache vs an abstract LRU model
@@ -501,8 +510,8 @@ fn cmd_objects(len: usize) {
     use oxidize_pdf::objects::Object;
     use oxidize_pdf::writer::WriterConfig;
     use oxidize_pdf::parser::PdfReader;
-    let salpha: Vec<char> = vec!['A', '7', '\\', '(', ')', '\r', '\n', '\u{1}', '\u{7f}', ' '];
-    let nalpha: Vec<char> = vec!['A', '4', ' ', '/', '(', '#', '%', '[', '\u{1}'];
+    let salpha: Vec<char> = vec!['A', '7', '\\', '(', ')', '\r', '\n', '\u{1}', '\u{7f}', ' ', '\u{e9}'];
+    let nalpha: Vec<char> = vec!['A', '4', ' ', '/', '(', '#', '%', '[', '\u{1}', '\u{e9}', '\u{20ac}'];
     fn words(alpha: &[char], len: usize) -> Vec<String> {
         let mut out = vec![String::new()]; let mut cur = vec![String::new()];
         for _ in 0..len { let mut nxt = vec![]; for w in &cur { for c in alpha { let mut x = w.clone(); x.push(*c); nxt.push(x); } } out.extend(nxt.iter().cloned()); cur = nxt; }
@@ -569,7 +578,7 @@ fn cmd_objects(len: usize) {
         }
     }
     let n = nbad.max(bad.len());
-    println!("{{\"cmd\":\"objects\",\"bound\":\"strings and names (as values and as dictionary keys) of <= {len} symbols over 10- and 9-symbol alphabets, legacy and object-stream writer configurations\",\"evaluated\":{},\"disagreement_count\":{},\"disagreements\":[{}]}}", evaluated, n, bad.join(","));
+    println!("{{\"cmd\":\"objects\",\"bound\":\"strings and names (as values and as dictionary keys) of <= {len} symbols over 11-symbol alphabets (delimiters, escapes, control bytes, non-ASCII), legacy and object-stream writer configurations\",\"evaluated\":{},\"disagreement_count\":{},\"disagreements\":[{}]}}", evaluated, n, bad.join(","));
 }
 
 // C04 Eb: revision chains. Objects 5 and 6 are defined in a base revision and then, in up to `max_upd` incremental updates,
